@@ -497,6 +497,16 @@ impl Wal {
             .create(true)
             .truncate(false)
             .open(&path)?;
+
+        // Drop a torn / garbage tail left behind by a crash.  The reader stops at the first
+        // record that is not completely written; anything appended behind such bytes would be
+        // unreachable after the next restart, so later commits must start at the valid end.
+        let valid_len = WalReader::valid_prefix_len(&path)?;
+        if file.metadata()?.len() > valid_len {
+            file.set_len(valid_len)?;
+            file.sync_data()?;
+        }
+
         Ok(Self {
             path,
             file: Some(file),
@@ -746,9 +756,11 @@ impl WalReader {
             return Ok(None);
         };
 
+        // No writer produces an empty or oversized record, so such a length field is the start
+        // of a torn tail (zero-filled space, garbage): end of log, like a checksum mismatch.
         const MAX_WAL_RECORD_LEN: u32 = 1024 * 1024; // 1MB
-        if len > MAX_WAL_RECORD_LEN {
-            return Err(Error::WalRecordTooLarge(len));
+        if len == 0 || len > MAX_WAL_RECORD_LEN {
+            return Ok(None);
         }
 
         let Some(crc) = self.try_read_u32()? else {
@@ -774,6 +786,13 @@ impl WalReader {
 
         let record = WalRecord::decode_body(&body)?;
         Ok(Some((record_offset, record)))
+    }
+
+    /// Length of the longest prefix of the file that consists of completely written records.
+    fn valid_prefix_len(path: &Path) -> Result<u64> {
+        let mut reader = Self::open(path)?;
+        while reader.next_record()?.is_some() {}
+        Ok(reader.offset)
     }
 
     fn try_read_u32(&mut self) -> Result<Option<u32>> {
